@@ -12,6 +12,8 @@
 #include <unistd.h>
 #include <cstdio>
 #include <cstdlib>
+#include <fstream>
+#include <sys/stat.h>
 #include <sstream>
 #include <string>
 #include <thread>
@@ -43,7 +45,9 @@ std::string job( int t, int r)
    try
    {
       // every third job with verbose evaluation (the handler reports each argument it handles on its own stream)
-      pa::Handler  ah( out, err, (t + r) % 3 == 1 ? pa::Handler::hfVerboseArgs : 0);
+      // every job reads the argument file of "its" program first ($HOME/.progargs/c09t<t>.pa, flag hfReadProgArg):
+      // the file holds the number of the thread, a value that is known without running anything
+      pa::Handler  ah( out, err, ((t + r) % 3 == 1 ? pa::Handler::hfVerboseArgs : 0) | pa::Handler::hfReadProgArg);
       std::vector< int>          ints;
       std::vector< std::string>  strs;
       std::vector< std::string>  upper;
@@ -69,6 +73,8 @@ std::string job( int t, int r)
       // first entries: a constraint evaluation that keeps state outside the handler mixes up the lists
       bool  extra = false;
       ah.addArgument( "e,extra", DEST_VAR( extra), "extra flag");
+      int  prog = -1;
+      ah.addArgument( "p,prog", DEST_VAR( prog), "value from the program's argument file");
       ah.addConstraint( pa::all_of( (t + r) % 2 == 0 ? "i;n;l" : "l;i;n"));
       ah.addConstraint( pa::any_of( (t + r) % 3 == 0 ? "e;f;n" : "e;n"));
       ah.addConstraint( pa::one_of( (t + r) % 2 == 0 ? "e;f" : "f;e;n"));
@@ -91,7 +97,10 @@ std::string job( int t, int r)
       if ((t + r) % 7 == 6) line += " -l 99";          // violates the upper limit: rejected
       if ((t + r) % 11 == 10) line += " --unknown 1";  // unknown argument: rejected
 
-      pa::evalArgumentString( ah, line, "c09");
+      const std::string  progname = "c09t" + std::to_string( t);
+      pa::evalArgumentString( ah, line, progname.c_str());
+      if (prog != t)
+         res << "FOREIGN-ARGUMENT-FILE(prog=" << prog << ") ";
 
       res << "ok ints=";
       for (int v : ints) res << v << ' ';
@@ -121,6 +130,17 @@ int main( int argc, char** argv)
    ::alarm( 240);     // a run that hangs (a lock that is never released) ends with SIGALRM
    const int  n = std::atoi( argv[ 1]);
    const int  rounds = std::atoi( argv[ 2]);
+   // a private HOME with one argument file per thread (set before any thread exists)
+   const char*  wd = ::getenv( "VERIF_WORK");
+   const std::string  home = std::string( wd ? wd : ".") + "/c09home" + std::to_string( ::getpid());
+   ::mkdir( home.c_str(), 0755);
+   ::mkdir( (home + "/.progargs").c_str(), 0755);
+   ::setenv( "HOME", home.c_str(), 1);
+   for (int t = 0; t < n; ++t)
+   {
+      std::ofstream  f( home + "/.progargs/c09t" + std::to_string( t) + ".pa");
+      f << "-p " << t << "\n";
+   }
    long  mismatches = 0, jobs = 0, accepted = 0;
    std::string  first;
    for (int r = 0; r < rounds; ++r)
@@ -147,7 +167,8 @@ int main( int argc, char** argv)
       {
          ++jobs;
          if (expect[ t].compare( 0, 2, "ok") == 0) ++accepted;
-         if (got[ t] != expect[ t])
+         if ((got[ t] != expect[ t]) || (got[ t].find( "FOREIGN-ARGUMENT-FILE") != std::string::npos)
+             || (expect[ t].find( "FOREIGN-ARGUMENT-FILE") != std::string::npos))
          {
             ++mismatches;
             if (first.empty())
@@ -156,6 +177,10 @@ int main( int argc, char** argv)
          }
       }
    }
+   for (int t = 0; t < n; ++t)
+      ::unlink( (home + "/.progargs/c09t" + std::to_string( t) + ".pa").c_str());
+   ::rmdir( (home + "/.progargs").c_str());
+   ::rmdir( home.c_str());
    for (auto& c : first) if (c == '\n') c = ' ';
    std::printf( "threads=%d rounds=%d jobs=%ld accepted=%ld mismatches=%ld first=%s\n", n, rounds, jobs,
                 accepted, mismatches, first.empty() ? "-" : first.c_str());
